@@ -9,7 +9,8 @@ TRUSTED = ["trees deeper than the interpreter's recursion limit are outside the 
 
 NASTY = [None, "", " ", "abc", "nan", "NaN", "inf", "-inf", "1e999", "-0", "181", "-181", "90.0000001", "12", "1.5", "1_0", " 1 ", "٣",
          "12:00:00", "25:00:00", "12:00", "2020", "0000", "2021-02-29", "2020-1-1", "http://a", "http://", "ftp://a/b c", "//a/b",
-         "HTTP://A", "http://[::1", "http://a:99999999999/", "mailto:x", "\x00", "\U0001F600", "a\nb", "]]>", "&lt;"]
+         "HTTP://A", "http://[::1", "http://a:99999999999/", "mailto:x", "\x00", "\U0001F600", "a\nb", "]]>", "&lt;",
+         "²²²²", "202①", "½", "٢٠٢٠", "１２", "१२३४", "2020²", "1²", "12:00:0²", "1e²"]      # str.isdigit() is true for many non-decimal digits
 
 
 def random_tree(rng, names, depth, maxdepth, width):
